@@ -119,9 +119,18 @@ class Carton(DBC):
     formula: Optional[Formula]
     """Formula"""
 
-    def __init__(self, items: List[Item], formula: Optional[Formula] = None) -> None:
+    nested: Optional[List["Carton"]]
+    """Nested cartons"""
+
+    def __init__(
+        self,
+        items: List[Item],
+        formula: Optional[Formula] = None,
+        nested: Optional[List["Carton"]] = None,
+    ) -> None:
         self.items = items
         self.formula = formula
+        self.nested = nested
 
 
 Default_name: str = constant_str(value="un\\"named\\"\\\\", description="Default name")
@@ -144,6 +153,15 @@ ITEM_ARGS: List[Tuple[str, Optional[str], Optional[str], Optional[int]]] = [
 ]
 # boxes: (indices into ITEM_ARGS, index into FORMULA_ARGS or None)
 BOX_ARGS: List[Tuple[List[int], Optional[int]]] = [([0], None), ([], None), ([0, 1, 2, 3], 0), ([5, 6], 17), ([7, 9], 3)]
+
+
+# trees for the traversal comparison: (indices into ITEM_ARGS, index into FORMULA_ARGS or None, nested trees or None)
+TREES: List[Any] = [
+    ([0], None, None),
+    ([], None, []),
+    ([0, 1], 2, [([2], None, None), ([], 3, [([3, 4], None, [])])]),
+    ([5], None, [([], None, [([], None, [([6], 4, None)])]), ([7], None, None)]),
+]
 
 
 def _java_string(s: str) -> str:
@@ -189,6 +207,19 @@ def _java_main() -> str:
              "    System.out.println(\"I|\" + label + \"|\" + out.size());",
              "    for (String s : out) { System.out.println(\"E|\" + label + \"|\" + s); }",
              "  }",
+             "  static String tag(IClass x) {",
+             "    if (x instanceof IItem) { return \"Item:\" + esc(((IItem) x).getName()); }",
+             "    if (x instanceof IFormula) { return \"Formula:\" + ((IFormula) x).getA() + \",\" + ((IFormula) x).getB(); }",
+             "    if (x instanceof ICarton) { return \"Carton:\" + ((ICarton) x).getItems().size(); }",
+             "    return \"?\";",
+             "  }",
+             "  static void walk(String label, IClass that) {",
+             "    StringBuilder all = new StringBuilder(); StringBuilder once = new StringBuilder();",
+             "    for (IClass x : that.descend()) { all.append(tag(x)).append(';'); }",
+             "    for (IClass x : that.descendOnce()) { once.append(tag(x)).append(';'); }",
+             "    System.out.println(\"W|\" + label + \"|\" + all);",
+             "    System.out.println(\"O|\" + label + \"|\" + once);",
+             "  }",
              "  public static void main(String[] args) {"]
     for k, a in enumerate(FORMULA_ARGS):
         lines.append(f"    report(\"formula {k}\", {formula(a)});")
@@ -197,7 +228,15 @@ def _java_main() -> str:
     for k, (items, fi) in enumerate(BOX_ARGS):
         its = ", ".join(item(ITEM_ARGS[i]) for i in items)
         lines.append(f"    report(\"box {k}\", new Carton(new ArrayList<IItem>(Arrays.asList({its})), "
-                     f"{'null' if fi is None else formula(FORMULA_ARGS[fi])}));")
+                     f"{'null' if fi is None else formula(FORMULA_ARGS[fi])}, null));")
+    def tree(t: Any) -> str:
+        its, fi, kids = t
+        items_code = ", ".join(item(ITEM_ARGS[i]) for i in its)
+        kids_code = "null" if kids is None else ("new ArrayList<ICarton>(Arrays.asList(" + ", ".join(tree(k) for k in kids) + "))")
+        return (f"new Carton(new ArrayList<IItem>(Arrays.asList({items_code})), "
+                f"{'null' if fi is None else formula(FORMULA_ARGS[fi])}, {kids_code})")
+    for k, t in enumerate(TREES):
+        lines.append(f"    walk(\"tree {k}\", {tree(t)});")
     lines.append(f"    System.out.println(\"C|Default_name|\" + esc(Constants.{jn.property_name(Identifier('Default_name'))}));")
     lines.append(f"    System.out.println(\"C|Answer|\" + Constants.{jn.property_name(Identifier('Answer'))});")
     lines.append(f"    System.out.println(\"C|Enabled|\" + Constants.{jn.property_name(Identifier('Enabled'))});")
@@ -235,7 +274,7 @@ def _cpp_main() -> str:
         return (f"std::make_shared<types::Formula>(int64_t({a}), int64_t({b}), int64_t({c}), "
                 f"{'true' if p else 'false'}, {'true' if q else 'false'})")
     lines = ['#include "dummy/common.hpp"', '#include "dummy/constants.hpp"', '#include "dummy/types.hpp"',
-             '#include "dummy/verification.hpp"', '#include "dummy/wstringification.hpp"', "#include <algorithm>",
+             '#include "dummy/verification.hpp"', '#include "dummy/wstringification.hpp"', '#include "dummy/iteration.hpp"', "#include <algorithm>",
              "#include <cstdio>", "#include <memory>", "#include <string>", "#include <vector>", "using namespace dummy;",
              # UTF-16 code units like the Java side, so that the three outputs are comparable
              "static std::string Esc(const std::wstring& s) {\n  std::string out; char buf[16];\n"
@@ -250,6 +289,17 @@ def _cpp_main() -> str:
              "    out.push_back(Esc(e.path.ToWstring()) + \"|\" + Esc(e.cause));\n  }\n"
              "  std::sort(out.begin(), out.end());\n  std::printf(\"I|%s|%zu\\n\", label, out.size());\n"
              "  for (const std::string& s : out) { std::printf(\"E|%s|%s\\n\", label, s.c_str()); }\n}",
+             "static std::string Tag(const std::shared_ptr<types::IClass>& x) {\n"
+             "  if (auto i = std::dynamic_pointer_cast<types::IItem>(x)) { return \"Item:\" + Esc(i->name()); }\n"
+             "  if (auto f = std::dynamic_pointer_cast<types::IFormula>(x)) { return \"Formula:\" + std::to_string(f->a()) + "
+             "\",\" + std::to_string(f->b()); }\n"
+             "  if (auto c = std::dynamic_pointer_cast<types::ICarton>(x)) { return \"Carton:\" + "
+             "std::to_string(c->items().size()); }\n  return \"?\";\n}",
+             "static void Walk(const char* label, const std::shared_ptr<types::IClass>& that) {\n"
+             "  std::string all, once;\n"
+             "  for (const std::shared_ptr<types::IClass>& x : iteration::Descent(that)) { all += Tag(x) + \";\"; }\n"
+             "  for (const std::shared_ptr<types::IClass>& x : iteration::DescentOnce(that)) { once += Tag(x) + \";\"; }\n"
+             "  std::printf(\"W|%s|%s\\n\", label, all.c_str());\n  std::printf(\"O|%s|%s\\n\", label, once.c_str());\n}",
              "int main() {"]
     for k, a in enumerate(FORMULA_ARGS):
         lines.append(f'  Report("formula {k}", {formula(a)});')
@@ -260,7 +310,19 @@ def _cpp_main() -> str:
         f_arg = ("common::nullopt" if fi is None
                  else f"common::optional<std::shared_ptr<types::IFormula> >({formula(FORMULA_ARGS[fi])})")
         lines.append(f'  Report("box {k}", std::make_shared<types::Carton>('
-                     f"std::vector<std::shared_ptr<types::IItem> >{{{its}}}, {f_arg}));")
+                     f"std::vector<std::shared_ptr<types::IItem> >{{{its}}}, {f_arg}, common::nullopt));")
+    def tree(t: Any) -> str:
+        its, fi, kids = t
+        items_code = ", ".join(item(ITEM_ARGS[i]) for i in its)
+        f_arg = ("common::nullopt" if fi is None
+                 else f"common::optional<std::shared_ptr<types::IFormula> >({formula(FORMULA_ARGS[fi])})")
+        k_arg = ("common::nullopt" if kids is None else
+                 "common::optional<std::vector<std::shared_ptr<types::ICarton> > >(std::vector<std::shared_ptr<types::ICarton> >{"
+                 + ", ".join(tree(k) for k in kids) + "})")
+        return (f"std::make_shared<types::Carton>(std::vector<std::shared_ptr<types::IItem> >{{{items_code}}}, "
+                f"{f_arg}, {k_arg})")
+    for k, t in enumerate(TREES):
+        lines.append(f'  Walk("tree {k}", {tree(t)});')
     lines.append('  std::printf("C|Default_name|%s\\n", Esc(constants::kDefaultName).c_str());')
     lines.append('  std::printf("C|Answer|%lld\\n", static_cast<long long>(constants::kAnswer));')
     lines.append('  std::printf("C|Enabled|%s\\n", constants::kEnabled ? "true" : "false");')
@@ -283,7 +345,7 @@ def _parse_run(stdout: str, prefix: str) -> Tuple[Dict[str, List[str]], Dict[str
             if cause.startswith(prefix):
                 cause = cause[len(prefix):]
             res.setdefault(label, []).append(path.lstrip(".") + "|" + cause)
-        elif tag in ("C", "L"):
+        elif tag in ("C", "L", "W", "O"):
             consts[tag + "|" + label] = payload
     return res, consts
 
@@ -400,7 +462,7 @@ def bounded(seed: int = 0, **_: Any) -> Dict[str, Any]:
                 if cause.startswith(prefix):
                     cause = cause[len(prefix):]
                 java.setdefault(label, []).append(path + "|" + cause)
-            elif tag in ("C", "L"):
+            elif tag in ("C", "L", "W", "O"):
                 java_const[tag + "|" + label] = payload
         # ---- C++ side (types, verification, constants, wstringification; no JSON / XML)
         cpp = _cpp_side(root, model)
@@ -456,6 +518,32 @@ def bounded(seed: int = 0, **_: Any) -> Dict[str, Any]:
                         failures.append({"instance": label, "kind": "verdict-cpp",
                                          "observed": f"the Python SDK reports {len(want)} error(s), the C++ SDK "
                                                      f"{len(got_cpp)}; only Python: {only_py[:3]}; only C++: {only_cpp[:3]}"})
+            def py_tree(t: Any) -> Any:
+                its, fi, kids = t
+                return T.Carton(items=[item(ITEM_ARGS[i]) for i in its],
+                                formula=None if fi is None else formula(FORMULA_ARGS[fi]),
+                                nested=None if kids is None else [py_tree(k) for k in kids])
+
+            def py_tag(x: Any) -> str:
+                if isinstance(x, T.Item):
+                    return "Item:" + _esc(x.name)
+                if isinstance(x, T.Formula):
+                    return f"Formula:{x.a},{x.b}"
+                if isinstance(x, T.Carton):
+                    return f"Carton:{len(x.items)}"
+                return "?"
+            for k, t in enumerate(TREES):
+                inst = py_tree(t)
+                for key, seq in ((f"W|tree {k}", inst.descend()), (f"O|tree {k}", inst.descend_once())):
+                    want_w = "".join(py_tag(x) + ";" for x in seq)
+                    for who, table in (("Java", java_const), ("C++", cpp[1] if cpp is not None else None)):
+                        if table is None:
+                            continue
+                        cases += 1
+                        if table.get(key) != want_w:
+                            failures.append({"property": "C26" if who == "C++" else "C09", "tree": k, "kind": "traversal",
+                                             "observed": f"{'descend' if key[0] == 'W' else 'descend_once'}: the Python SDK "
+                                                         f"yields {want_w!r}, the {who} SDK {table.get(key)!r}"})
             consts = {"C|Default_name": _esc(K.DEFAULT_NAME), "C|Answer": str(K.ANSWER), "C|Enabled": "true" if K.ENABLED else "false"}
             for n in ("Red", "Dark_green", "Quoted"):
                 consts["L|" + n] = _esc(getattr(T.Color, n.upper()).value)
